@@ -54,9 +54,26 @@ static void cx_spawn_record(const char *how, const char *what)
     snprintf(cx_last_cmd, sizeof cx_last_cmd, "%s(%s)", how, what ? what : "NULL");
     if (vh_verbose) fprintf(stderr, "  [spawn monitor] %s\n", cx_last_cmd);
 }
+static int cx_sim_cat;                 /* if set, a `cmd < IN > OUT` passed to system() copies IN to OUT (a pass-through preprocessor such as
+                                          `%preproc cat`: the output still holds the %preproc line itself) */
 int __wrap_system(const char *cmd)
 {
     cx_spawn_record("system", cmd);
+    if (cx_sim_cat && cmd) {
+        const char *lt = strstr(cmd, " < "), *gt = lt ? strstr(lt, " > ") : NULL;
+        if (lt && gt) {
+            char in[PATH_MAX], out[PATH_MAX];
+            size_t n = (size_t) (gt - (lt + 3));
+            if (n < sizeof in && strlen(gt + 3) < sizeof out) {
+                memcpy(in, lt + 3, n); in[n] = 0; strcpy(out, gt + 3);
+                int ifd = open(in, O_RDONLY), ofd = open(out, O_WRONLY | O_TRUNC);          /* never creates */
+                if (ifd >= 0 && ofd >= 0) { char b[4096]; ssize_t k; while ((k = read(ifd, b, sizeof b)) > 0) if (write(ofd, b, (size_t) k) < 0) break; vh_count("preproc_pass_through_simulated", 1); }
+                if (ifd >= 0) close(ifd);
+                if (ofd >= 0) close(ofd);
+                return 0;
+            }
+        }
+    }
     if (cx_sim_output && cmd) {
         const char *gt = NULL;
         for (const char *p = cmd; *p; p++) if (p[0] == '>' ) gt = p;
@@ -570,7 +587,9 @@ static const char *cx_match(cx_model *m, const char *exp, size_t en, const char 
 #define CX_MAXEV 40000
 #define CX_TEXTCAP (4u << 20)
 #define CX_OPAQUE ((uintptr_t) 1)       /* state produced by libast's own null handler: not asserted */
-typedef struct { int ctx; char kind; uint32_t off, len; uintptr_t sin, sout; } cx_ev;
+typedef struct { int ctx; char kind; uint32_t off, len; uintptr_t sin, sout;
+                 const char *opt; size_t optlen;     /* expected events only: optional delivery of (a prefix of) this over-long line */
+} cx_ev;
 static cx_ev cx_evs[CX_MAXEV]; static int cx_nev;
 static cx_ev cx_exp[CX_MAXEV]; static int cx_nexp;
 static char *cx_text, *cx_etext; static size_t cx_ntext, cx_netext;
@@ -614,11 +633,20 @@ static void cx_expect(int ctx, char kind, const char *text, size_t l)
 {
     if (cx_nexp >= CX_MAXEV) { cx_ev_overflow = 1; return; }
     cx_ev *e = &cx_exp[cx_nexp++];
-    e->ctx = ctx; e->kind = kind; e->sin = e->sout = 0;
+    e->ctx = ctx; e->kind = kind; e->sin = e->sout = 0; e->opt = NULL; e->optlen = 0;
     if (cx_netext + l + 1 > CX_TEXTCAP) { cx_ev_overflow = 1; l = 0; }
     e->off = (uint32_t) cx_netext; e->len = (uint32_t) l;
     if (l) memcpy(cx_etext + cx_netext, text, l);
     cx_netext += l;
+}
+
+/* A line longer than the line buffer cannot be delivered whole by a fixed-buffer reader.  The tree reports it and drops it; a reader
+ * that delivered it (whole, or cut to what fits) would satisfy "exactly once" as well.  Both are accepted -- what is never accepted is
+ * anything ELSE coming out of such a line (its tail read as a further line). */
+static void cx_expect_optional_long(int ctx, const char *line, size_t l)
+{
+    cx_expect(ctx, 'T', NULL, 0);
+    if (cx_nexp > 0) { cx_exp[cx_nexp - 1].opt = line; cx_exp[cx_nexp - 1].optlen = l; }
 }
 
 /* 320 distinct handler functions so that the handler itself knows which context it serves */
@@ -709,7 +737,16 @@ static void cx_model_file(cx_lmodel *lm, const cx_file *f, int fdepth)
         nl = memchr(p, '\n', (size_t) (end - p));
         if (!nl) { cx_lm_weak(lm, "last line without newline"); nl = end; }
         size_t raw = (size_t) (nl - p);
-        if (raw + 1 >= CONFIG_BUFF) { cx_lm_weak(lm, "line at or over the limit"); }
+        if (raw + 1 >= CONFIG_BUFF) {
+            /* over-long: a comment stays a comment (nothing delivered); a generated over-long text line is optional (see cx_expect_optional_long) */
+            lm->lines++;
+            const char *q = p;
+            p = nl < end ? nl + 1 : end;
+            if (*q == '#') { lm->comments++; continue; }
+            if (raw > 9 && !memcmp(q, "OVERLONG-", 9) && !memchr(q, 0, raw)) { cx_expect_optional_long(lm->stack[lm->depth], q, raw); continue; }
+            cx_lm_weak(lm, "line at or over the limit");
+            continue;
+        }
         if (memchr(p, 0, raw)) cx_lm_weak(lm, "NUL byte in line");
         lm->lines++;
         const char *s = p, *e = nl;
@@ -796,6 +833,17 @@ static const char *cx_compare_events(const cx_ctxs *ctxs, cx_slots *sl, const ch
         cx_ev *x = &cx_exp[xi];
         int hid = ctxs->hid[x->ctx];
         cx_ev *a = NULL;
+        if (x->opt) {
+            /* delivered at all?  only if the next event is a text for this handler that is a non-empty prefix of the line */
+            cx_ev *n = ai < cx_nev ? &cx_evs[ai] : NULL;
+            if (hid >= 0 && n && n->kind == 'T' && n->ctx == hid && n->len >= 8 && n->len <= x->optlen && !memcmp(cx_text + n->off, x->opt, n->len)) {
+                a = n; ai++; vh_count("overlong_lines_delivered", 1);
+                uintptr_t want_in = sl->state[sl->depth];
+                if (want_in != CX_OPAQUE && a->sin != want_in) { *key = "state:text"; snprintf(msg, sizeof msg, "event #%d (over-long line): handler must receive the state it returned last", xi); return msg; }
+                sl->state[sl->depth] = a->sout;
+            } else vh_count("overlong_lines_dropped", 1);
+            continue;
+        }
         if (hid >= 0) {
             if (ai >= cx_nev) {
                 *key = "events:missing";
@@ -857,6 +905,7 @@ typedef struct {
     const cx_ctxs *ctxs;
     int n_reg, expansion;
     int depth, target_depth, ramping, files_left, chain_left, max_level, next_file_no;
+    int overlong_left;                  /* how many over-long lines this tree may still get */
     int cycles;                         /* also generate %include lines that name a file already being read */
     long lines_emitted, line_budget;
     char magic[64];
@@ -931,6 +980,21 @@ static void cx_gen_text(cx_file *f)
     } else {
         static const char *KEYS[] = { "font", "color", "bind", "geometry", "title", "exec_path", "background", "enabled", "x" };
         if (vh_coin(50)) { cx_buf_adds(&b, KEYS[vh_below(9)]); cx_buf_addc(&b, ' '); }
+        if (cx_g.cycles && cx_g.overlong_left > 0 && vh_below(150) == 0) {
+            /* longer than the line buffer, by one byte up to several buffers (1, 2, 3 and 4 reads of the buffer size, and their edges):
+             * a comment, or a text line that starts with a unique head */
+            static const int OVER[] = { 20479, 20480, 20481, 30000, 40957, 40958, 40959, 40960, 50000, 61436, 61437, 61438, 70000, 81916, 81917 };
+            int want = OVER[vh_below(15)], comment = vh_coin(40);
+            cx_buf_reset(&b);
+            if (comment) cx_buf_adds(&b, "# "); else { char h[32]; snprintf(h, sizeof h, "OVERLONG-%d-", cx_g.overlong_left); cx_buf_adds(&b, h); }
+            while ((int) b.n < want) cx_buf_addc(&b, "abcdefghijklmnopqrstuvwxyz0123456789 "[(b.n * 7 + 3) % 37]);
+            if (b.b[b.n - 1] == ' ') b.b[b.n - 1] = 'z';
+            cx_g.overlong_left--;
+            vh_count(comment ? "overlong_comment_lines" : "overlong_text_lines", 1);
+            cx_buf_adds(&f->data, b.b); cx_buf_addc(&f->data, '\n'); cx_g.lines_emitted++;
+            cx_buf_free(&b);
+            return;
+        }
         if (cx_g.cycles && vh_coin(2)) {
             /* the longest lines that still fit the line buffer (CONFIG_BUFF - 2 characters + newline): ordinary lines, delivered once */
             static const int LONG[] = { 20478, 20477, 20470, 16384, 20478 };
